@@ -254,7 +254,8 @@ func checkRendering(s *Sim, kind t_api.Kind, res *t_api.Response, kerr error, st
 			if !known {
 				return
 			}
-			if body == "" && want == "null" {
+			if body == "" && (want == "null" || rend.HTTPStatus == 204) {
+				// 204 No Content carries no body by definition
 				return
 			}
 			if !jsonEqual(body, want) {
